@@ -66,6 +66,21 @@ where
     }
 }
 
+impl<F: TryFuture> Drop for TryJoinAll<F> {
+    fn drop(&mut self) {
+        // Outputs of futures that already completed sit in the buffer until all are done;
+        // if we are dropped before that, they must be dropped here.
+        // (Once resolved - to `Ok` or `Err` - the buffer has been replaced by an empty one.)
+        for (i, out) in self.output.iter_mut().enumerate() {
+            if self.queue.tasks.get(i).is_none() {
+                // SAFETY: slot `i` is vacant, so its future completed with `Ok` and its output
+                // was written to `output[i]`, and the buffer has not been handed out yet.
+                unsafe { out.assume_init_drop() };
+            }
+        }
+    }
+}
+
 impl<F: TryFuture> Future for TryJoinAll<F> {
     type Output = Result<Vec<F::Ok>, F::Err>;
 
